@@ -347,6 +347,24 @@ def impl_sharded(payload_logs, consume, env, pythonpath=None, nshards=None, wild
             "fetcher_file": res[0]["fetcher_file"]}
 
 
+def check_fetcher_level(ck):
+    """the filter as the application meets it: the real consumer (Fetcher + PartitionRecords) under the simulator on
+    read_committed logs with aborted and committed transactions of the SAME producer, one batch per response, and a
+    jump (seek) after a response that ended inside an aborted transaction.  C03's scenario runner and monitor are
+    reused: every delivered run must be exactly the read_committed view from the position."""
+    import c03
+    scs = [sc for sc in c03.directed_scenarios(900000) if sc.get("iso") == 1]
+    results = c03.run_scenarios(scs, timeout=600)
+    bad = 0
+    for sc, r in zip(scs, results):
+        if not r.get("ok"):
+            ck.obligation(f"correspondence:fetcher-level-simulation-ran:{sc['id']}", False, str(r.get("error"))[:300])
+            continue
+        ck.count(key=("fetcher-level", sc["id"]), nontrivial=True)
+        bad += c03.monitor(ck, sc, r)
+    ck.obligation("correspondence:fetcher-level-read-committed-runs", True, f"{len(scs)} runs, {bad} monitor violations")
+
+
 def run(ck: Check):
     rng = ck.rng
     ck.trusted += [
@@ -378,6 +396,7 @@ def run(ck: Check):
 
     pool = cf.ThreadPoolExecutor(max_workers=2)
     fut_proofs = pool.submit(proofs)
+    check_fetcher_level(ck)
 
     # ---- inputs
     n_logs = ck.n(500, 20000)
